@@ -44,6 +44,20 @@ type refTracker struct {
 	log     []string
 	replies []trReply
 	dirty   map[int]bool // contacts during which the tracker misbehaved in any way
+	// per contact: requests seen, and those answered in a way that cannot
+	// possibly carry an interval (no connection, an error status, an empty body)
+	nreq, nsilent map[int]int
+}
+
+func (rt *refTracker) noteRequest(silent bool) {
+	if rt.nreq == nil {
+		rt.nreq, rt.nsilent = map[int]int{}, map[int]int{}
+	}
+	k := len(rt.contacts) - 1
+	rt.nreq[k]++
+	if silent {
+		rt.nsilent[k]++
+	}
 }
 
 // misbehaved marks the current contact: what the client makes of the
@@ -108,6 +122,7 @@ func (rt *refTracker) httpHandler(w *World, req *http.Request, rec *HTTPRec) (*h
 		w.rc.Fail("C15", "request-format", "", "announce without a 20-byte info_hash/peer_id: %q", req.URL.RawQuery)
 	}
 	if rec.Net == "tcp6" && st.Bool(1, 2) {
+		rt.noteRequest(true)
 		return nil, fmt.Errorf("dial tcp6: network is unreachable")
 	}
 	if d := time.Duration(st.Choice(3000)) * time.Millisecond; d > 0 {
@@ -124,6 +139,7 @@ func (rt *refTracker) httpHandler(w *World, req *http.Request, rec *HTTPRec) (*h
 	if kind != 0 || !whole {
 		rt.misbehaved()
 	}
+	rt.noteRequest(kind == 2 || kind == 6 || kind == 7)
 	body := func(b []byte, status int) (*http.Response, error) {
 		sb := w.Body(req.Context(), b)
 		if !whole && len(b) > 0 {
@@ -428,14 +444,31 @@ func trackerMain(rc *RunCtx) {
 		}
 		return best
 	}
+	// an interval stays announced while nothing else is: a contact whose
+	// every request ended without a reply that could carry an interval (no
+	// connection, an error status, an empty body) leaves the client with
+	// what it was told before (HTTP contacts only: that is where the
+	// reference tracker records it)
+	eff := int64(-1)
 	for i := 1; i < len(rt.contacts); i++ {
 		gap := rt.contacts[i] - rt.contacts[i-1]
 		need := 5 * time.Minute
 		class := "five-minutes"
 		iv := binding(i - 1)
+		switch {
+		case iv >= 0:
+			eff = iv
+		case rt.nreq[i-1] > 0 && rt.nsilent[i-1] == rt.nreq[i-1] && eff > 900:
+			iv = eff
+			class = "interval-announced-earlier"
+		default:
+			eff = -1
+		}
 		if iv > 300 && iv <= 1<<31 {
 			need = time.Duration(iv) * time.Second
-			class = "announced-interval"
+			if class == "five-minutes" {
+				class = "announced-interval"
+			}
 		}
 		if gap < need {
 			rc.Fail("C15", "discipline", class, "the tracker was contacted again after %v; its previous reply announced interval %d s (minimum %v); contacts %v replies %v announces %v", gap, iv, need, rt.contacts, rt.replies, anns)
